@@ -77,7 +77,14 @@ def check_shape(P, w):
         if int(c) not in ints:
             return False, f"integer constant {c} no longer appears in {fn}"
     if w.get("reached_from"):
-        r = P.reachable([w["reached_from"]])
+        roots = [w["reached_from"]]
+        if w.get("reached_from_self"):
+            # impl-block indices move when an impl is added earlier in the file: resolve the root by self type and method name
+            meth = w["reached_from"].rsplit("::", 1)[-1]
+            byself = [k for k, b in P.bodies.items() if b.get("impl_self") == w["reached_from_self"] and k.rsplit("::", 1)[-1] == meth and "{closure" not in k]
+            if byself:
+                roots = byself
+        r = P.reachable(roots)
         if fn not in r:
             return False, f"{fn} is no longer reachable from {w['reached_from']}"
     return True, ""
